@@ -278,6 +278,20 @@ class PathRules:
                 n += 1
                 rep.ob(rule, b.id, "remove_dir_all: remove_dir(self) after the child loop", ok,
                        "dominated by the loop exit" if ok else "self.remove_dir() is not after the child loop", s.line)
+            # ... and on every path: apart from the "nothing there" early return, Ok means the directory itself is gone
+            # (also when it is the root of its filesystem: for an adapter that root is an ordinary directory underneath)
+            cb0 = self.inter.code_body(b)
+            for ct, _, bb in self.inter.ret_cases(b):
+                if self.inter.case_polarity(ct) != "ok":
+                    continue
+                gs = self.guards(cb0, bb)
+                early = self.g_exists(gs, lambda t: self.is_arg(t, 0), False)
+                removed = any(g[0] == "variant" and g[2] == "ok" and peel(g[1])[0] == "call" and sname(peel(g[1])[1]) == "remove_dir" and
+                              peel(g[1])[2] and self.is_arg(peel(g[1])[2][0], 0) for g in gs)
+                n += 1
+                rep.ob(rule, b.id, "remove_dir_all: Ok only after remove_dir(self) succeeded (or nothing was there)", early or removed,
+                       "" if (early or removed) else "remove_dir_all can return Ok without having removed the directory itself "
+                       "(the final remove_dir is conditional): the subtree's root stays behind", cb0.blocks[bb].term.line)
             # children dispatched by their own type
             for rmname, want in (("remove_file", "File"), ("remove_dir_all", "Directory")):
                 for cb, s in self.sites("remove_dir_all", lambda s, rmname=rmname: sname(s.path) == rmname):
